@@ -164,3 +164,64 @@ Proof.
   - apply upd_other. intros ->. now rewrite Nat.eqb_refl in H.
   - apply upd_other. intros ->. now rewrite Nat.eqb_refl in H.
 Qed.
+
+(* The effect of applying a lazy inverse (mv) is that of the configuration captured at creation,
+   and the effect tells every setting apart wherever that setting can matter. *)
+Lemma capture_effect_l fails s h1 h2 :
+  let i := length (invs (final s h1)) in
+  effects fails (observe s (h1 ++ NewInverse :: h2 ++ [ApplyInverse i])) =
+  effects fails (observe s (h1 ++ NewInverse :: h2)) ++ [Some (mv fails (cur (final s h1)))].
+Proof.
+  intros i. unfold effects. subst i. rewrite capture_l. rewrite map_app. reflexivity.
+Qed.
+
+Lemma mv_returned_l fails c s o k :
+  mv fails c = Returned s o k -> c_solver c = s /\ c_options c = o /\ c_callback c = k.
+Proof.
+  unfold mv. destruct (fails (c_solver c) (c_options c) && negb (c_throw c =? 0)); [discriminate|].
+  intros H; inversion H; auto.
+Qed.
+
+Lemma mv_raised_l fails c :
+  mv fails c = Raised <-> fails (c_solver c) (c_options c) = true /\ c_throw c <> 0%Z.
+Proof.
+  unfold mv. destruct (fails (c_solver c) (c_options c)); cbn [andb].
+  - destruct (Z.eqb_spec (c_throw c) 0) as [E|E]; cbn [negb]; split.
+    + discriminate.
+    + intros [_ H]; contradiction.
+    + auto.
+    + reflexivity.
+  - split; [discriminate|]. intros [H _]; discriminate.
+Qed.
+
+(* a probe on which the solve fails and a probe on which it succeeds determine every setting
+   (solver_throw up to its truth value, which is all lineax looks at) *)
+Lemma effects_determine_l c c' :
+  mv all_fail c = mv all_fail c' -> mv none_fail c = mv none_fail c' ->
+  (c_throw c =? 0)%Z = (c_throw c' =? 0)%Z /\ c_solver c = c_solver c' /\
+  c_options c = c_options c' /\ c_callback c = c_callback c'.
+Proof.
+  unfold mv, all_fail, none_fail. cbn [andb].
+  destruct (c_throw c =? 0)%Z, (c_throw c' =? 0)%Z; cbn [negb]; intros H1 H2;
+    try discriminate; inversion H2; auto.
+Qed.
+
+(* changing one setting alone changes the effect, in the situations where that setting matters *)
+Lemma throw_visible_l fails c c' :
+  fails (c_solver c) (c_options c) = true -> c_solver c' = c_solver c -> c_options c' = c_options c ->
+  (c_throw c =? 0)%Z <> (c_throw c' =? 0)%Z -> mv fails c <> mv fails c'.
+Proof.
+  intros Hf Hs Ho Ht. unfold mv. rewrite Hs, Ho, Hf. cbn [andb].
+  destruct (c_throw c =? 0)%Z, (c_throw c' =? 0)%Z; cbn [negb]; try congruence; discriminate.
+Qed.
+Lemma others_visible_l fails c c' :
+  (fails (c_solver c) (c_options c) = false \/ c_throw c = 0%Z) ->
+  (c_solver c <> c_solver c' \/ c_options c <> c_options c' \/ c_callback c <> c_callback c') ->
+  mv fails c <> mv fails c'.
+Proof.
+  intros Hok Hd E.
+  assert (Hr : mv fails c = Returned (c_solver c) (c_options c) (c_callback c)).
+  { unfold mv. destruct Hok as [H|H]; rewrite H; [reflexivity|]. rewrite andb_false_r. reflexivity. }
+  rewrite E in Hr. apply mv_returned_l in Hr. destruct Hr as (H1 & H2 & H3).
+  destruct Hd as [H|[H|H]]; congruence.
+Qed.
